@@ -54,6 +54,21 @@ func (h HelperMap) All() map[string]interface{} {
 	return h.helpers
 }
 
+// Copy returns the helpers registered so far in a map of the caller's own:
+// ranging over it is safe while helpers are added.
+func (h HelperMap) Copy() map[string]interface{} {
+	if h.moot != nil {
+		h.moot.Lock()
+		defer h.moot.Unlock()
+	}
+
+	m := make(map[string]interface{}, len(h.helpers))
+	for k, v := range h.helpers {
+		m[k] = v
+	}
+	return m
+}
+
 // Get returns the helper registered under key, if there is one.
 func (h HelperMap) Get(key string) (interface{}, bool) {
 	if h.moot != nil {
